@@ -13,7 +13,8 @@ class SPEC:
             "exporter code and decoded by a collecting process, the production path of the records): histories of 1..80 records over a pool of 2..6 five-tuples (IPv4 and IPv6, tuples differing in a single "
             "component), all flow types (single-stream and correlated inter-node flows), per reporting node strictly increasing end times "
             "and non-decreasing totals, end > start, counters of adversarial magnitude (0, 1, 2^32 +- 1, 2^61 +- 1, near 2^64), interleaved "
-            "with exports-with-reset, clock advances (inactive expiry restarts a flow) and a dump after every step. The declarative "
+            "with exports-with-reset, clock advances (inactive expiry restarts a flow) and a dump after every step; about 5 % of the records (and of the "
+            "data sets) lack one of the non-pod correlate fields, as records of an exporter whose template has no such element. The declarative "
             "history-level specification Ipfix.C05.expected (sums / latest values / max / throughput formula as folds over the flow's history) "
             "is evaluated on every dumped and exported record of the implementation. A second stream violates the contract on purpose (equal "
             "end times, decreasing totals); it is compared with the model but reported as out-of-domain only. Non-trivial = >= 2 records on one key.")
@@ -98,12 +99,14 @@ def history(rng, tier, contract=True, msgs=False):
             ks = [k0] + [rng.choice(family) if rng.random() < 0.8 else k0 for _ in range(rng.randint(1, 3))]
             if ks[-1] not in kinds and ks.count(ks[-1]) == 1 and rng.random() < 0.7:
                 ks.insert(rng.randrange(len(ks) - 1), ks.pop())
-            recs = [rec_for(k) for k in ks]
+            recs = AG.sprinkle_absent([rec_for(k) for k in ks], keep=(AG.EGRESS,))
             ops.append(AG.msg_op(recs, rng.randrange(1, 1 << 30) if perm_p and rng.random() < perm_p else None))
             ops.append("agg dump")
         elif r < 0.72:
             k = rng.choice(keys)
-            ops.append(rec_for(k))
+            # (a flow denied at egress keeps its egress action: without it the record would need correlation, and
+            # the records of a flow must agree on that - the contract)
+            ops.append(AG.sprinkle_absent([rec_for(k)], keep=(AG.EGRESS,))[0])
             if perm_p and rng.random() < perm_p:
                 # exporters need not list the fields of a record in the same order (and a template refresh may reorder them)
                 ops[-1] += " p%d" % rng.randrange(1, 1 << 30)
@@ -138,6 +141,20 @@ def run(ctx):
         cases.append(history(rng2, ctx.tier, True, msgs=True))
     for _ in range(n // 40):
         cases.append(history(rng2, ctx.tier, False, msgs=True))
+    # tokens the harness refuses because they do not fit the element's type (times: unsigned32, flow type and end
+    # reason: unsigned8, counters: unsigned64, key: the engine's table): refused by the model's parser too
+    ok = AG.intra(1, 100, 101, [1, 1, 1, 1, 1, 1, 1, 1])
+    f = ok.split(" ")
+
+    def with_field(i, v):
+        g = list(f)
+        g[i] = v
+        return " ".join(g)
+    bad = [with_field(6, str(2 ** 32)), with_field(5, str(2 ** 32)), with_field(7, "256"), with_field(3, "256"), with_field(2, "7"),
+           with_field(9, "1,1,1,1,1,1,1,%d" % 2 ** 64), with_field(6, "1_0"),
+           with_field(4, ",".join("n256" if i == AG.INGRESS else t for i, t in enumerate(f[4].split(","))))]
+    for b in bad:
+        cases.append(Case(["agg new %d %d" % (A, I), b, "agg dump", ok, AG.msg_op([ok, b]), "agg dump"], "out-of-range", False, False))
     res = run_simple(ctx, cases, "C05", chk_filter=lambda op: True, stateful_chk=True,
                      chk_variant=lambda op: "agga" + op[3:],
                      signature=lambda c, oi, v, agrees: "C05:%s" % " ".join(v.split(" ")[:3]))
